@@ -102,6 +102,7 @@ SAFE_FAMILIES = [_re.compile(x) for x in (
     r'^core::option::Option::(map_or|map_or_else|or|or_else|xor|filter|zip|take|replace|as_ref|as_mut|copied|cloned|unwrap_or_else|and|iter|inspect|is_some_and|is_none_or|ok_or|map|then)$',
     r'^core::bool::<impl bool>::(then_some|then)$',
     r'^core::vec::Vec::(as_mut_slice|as_slice|len|is_empty|capacity|as_ptr|as_mut_ptr|clear)$',
+    r'^core::array::<impl \[T; N\]>::(as_slice|as_mut_slice|each_ref|each_mut|iter|iter_mut)$',
     r'^core::slice::<impl \[T\]>::(as_ptr|as_mut_ptr|get_mut|first_mut|last_mut|contains|starts_with|ends_with|fill|reverse|iter|is_empty|len|split_first_mut|split_last_mut|as_chunks|as_chunks_mut|as_rchunks)$',
     r'^core::num::<impl [ui](8|16|32|64|128|size)>::(wrapping_\w+|saturating_\w+|checked_\w+|overflowing_\w+|to_[bln]e_bytes|from_[bln]e_bytes|'
     r'leading_zeros|trailing_zeros|count_ones|count_zeros|swap_bytes|rotate_left|rotate_right|min|max|is_power_of_two|abs_diff)$',
@@ -658,6 +659,12 @@ class Discharger:
                         vals.append(v)
                     if vals[0] == ('len', ('param', 1)) and const_of(vals[1]) is not None:
                         n = const_of(vals[1])
+                    # assert_eq!(a.len(), b.len()) of two buffers with the same type-level length: always true
+                    if vals[0][0] == 'len' and vals[1][0] == 'len':
+                        p2 = a.term_point(b2)
+                        la, lb = ref_len(a, self.facts, vals[0][1], p2), ref_len(a, self.facts, vals[1][1], p2)
+                        if la is not None and la == lb:
+                            return 'D3', 'assert_eq!(a.len(), b.len()) of two buffers of type-level length %s' % (la,)
         if n is None:
             return None
         bad = []
